@@ -1273,6 +1273,8 @@ class MindsDBParser(Parser):
         if hasattr(p, 'id'):
             query.alias = Identifier(parts=[p.id])
         if hasattr(p, 'column_list'):
+            if not isinstance(query, Select):
+                raise ParsingException(f"Column aliases can be applied only to SELECT, got: {type(query).__name__}")
             for i, col in enumerate(p.column_list):
                 if i >= len(query.targets):
                     break
